@@ -35,7 +35,6 @@ def ioHealed : List (String × String) :=
 def scratch : List (String × String) :=
   [("phrq_io", "pointer to the owning IPhreeqc object; set once by the constructor"),
    ("ioInstance", "fallback PHRQ_io of a stand-alone Phreeqc; unused because phrq_io points to the IPhreeqc object"),
-   ("last_model", "all fields but numerical_fixed_volume are reset; see that entry"),
    ("last_model.numerical_fixed_volume", "only compared by check_same_model when last_model.force_prep is false; init() sets force_prep and the first prep() stores the whole last_model"),
    ("charge_group_map", "calc_all_donnan / calc_init_donnan clear and refill it before reading"),
    ("Dispersion_mix_map", "rebuilt by init_mix/set_transport at the start of transport(), erased by transport_cleanup"),
